@@ -1,0 +1,1398 @@
+//go:build verif
+
+package risc
+
+// Contracts for package risc (properties C02, C03, C04, C07, C11, C15).
+// Comment-only file: nothing here is compiled.
+
+//@ mode bv
+
+// wfZero: the context reads the zero register as 0 (context invariant
+// maintained because every Run yields Register == Zero ==> RegisterValue == 0).
+//@ spec func wfZero(ctx *Context, f Forward) bool = ctx != nil && (ctx.rat ==> wfCtxRAT(ctx)) && registerRead(ctx, f, Zero, 0) == 0 && (forall s int32 :: registerRead(ctx, f, Zero, s) == 0)
+
+// registerRead: precedence forward > uncommitted (transaction map / rename
+// table) > committed / register file (C04); a read on behalf of tag t != 0
+// never returns a value written with a younger tag (C15).
+//@ func registerRead
+//@   mode int
+//@   pure
+//@   requires ctx != nil && (ctx.rat ==> wfCtxRAT(ctx))
+//@   ensures reg == forward.Register ==> result == forward.Value
+//@   ensures reg != forward.Register && !ctx.rat && reg in ctx.Transaction ==> result == ctx.Transaction[reg].value
+//@   ensures reg != forward.Register && !ctx.rat && !(reg in ctx.Transaction) ==> result == ctx.Registers[reg]
+//@   ensures reg != forward.Register && ctx.rat && sequenceID == 0 && comp.has(ctx.transactionRAT, reg) ==> result == comp.newest(ctx.transactionRAT, reg).value
+//@   ensures reg != forward.Register && ctx.rat && sequenceID == 0 && !comp.has(ctx.transactionRAT, reg) ==> result == (comp.has(ctx.committedRAT, reg) ? comp.newest(ctx.committedRAT, reg) : 0)
+//@   ensures forall i int :: reg != forward.Register && ctx.rat && sequenceID != 0 && comp.validSlot(ctx.transactionRAT, reg, i) && comp.slot(ctx.transactionRAT, reg, i).sequenceID <= sequenceID && (forall i2 int :: comp.validSlot(ctx.transactionRAT, reg, i2) && comp.slot(ctx.transactionRAT, reg, i2).sequenceID <= sequenceID ==> comp.rank(ctx.transactionRAT, reg, i) <= comp.rank(ctx.transactionRAT, reg, i2)) ==> result == comp.slot(ctx.transactionRAT, reg, i).value
+//@   ensures reg != forward.Register && ctx.rat && sequenceID != 0 && !(exists i int :: comp.validSlot(ctx.transactionRAT, reg, i) && comp.slot(ctx.transactionRAT, reg, i).sequenceID <= sequenceID) ==> result == (comp.has(ctx.committedRAT, reg) ? comp.newest(ctx.committedRAT, reg) : 0)
+//@   ensures reg != forward.Register && ctx.rat && sequenceID != 0 ==> (exists i int :: comp.validSlot(ctx.transactionRAT, reg, i) && comp.slot(ctx.transactionRAT, reg, i).sequenceID <= sequenceID && result == comp.slot(ctx.transactionRAT, reg, i).value) || result == (comp.has(ctx.committedRAT, reg) ? comp.newest(ctx.committedRAT, reg) : 0)
+//@   assigns nothing
+
+//@ func IsRegisterChange
+//@   ensures register == Zero ==> (result == Zero && result1 == 0)
+//@   ensures register != Zero ==> (result == register && result1 == value)
+//@   assigns nothing
+
+// ---------------------------------------------------------------- Context: speculative register state (C15)
+// Transaction map: one slot per register (the property's hypothesis for the
+// map is "at most one uncommitted write per register"; with more, the slot
+// holds the last one written).
+
+//@ func (*Context).WriteRegister
+//@   mode int
+//@   requires ctx.Registers != nil
+//@   ensures exe.Register in ctx.Registers && ctx.Registers[exe.Register] == exe.RegisterValue
+//@   ensures forall r RegisterType :: r != exe.Register ==> (r in ctx.Registers) == old(r in ctx.Registers) && ctx.Registers[r] == old(ctx.Registers[r])
+//@   assigns ctx.Registers[*]
+
+//@ func (*Context).TransactionWriteRegister
+//@   mode int
+//@   requires ctx.Transaction != nil
+//@   ensures exe.Register in ctx.Transaction && ctx.Transaction[exe.Register].sequenceID == sequenceID && ctx.Transaction[exe.Register].value == exe.RegisterValue
+//@   ensures forall r RegisterType :: r != exe.Register ==> (r in ctx.Transaction) == old(r in ctx.Transaction) && ctx.Transaction[r] == old(ctx.Transaction[r])
+//@   assigns ctx.Transaction[*]
+
+// Commit: every register with an uncommitted write takes that write's value,
+// every other register is unchanged, nothing stays uncommitted. Proved for
+// every map iteration order.
+//@ func (*Context).Commit
+//@   mode int
+//@   requires ctx.Registers != nil && ctx.Transaction != nil
+//@   ensures forall r RegisterType :: old(r in ctx.Transaction) ==> r in ctx.Registers && ctx.Registers[r] == old(ctx.Transaction[r].value)
+//@   ensures forall r RegisterType :: !old(r in ctx.Transaction) ==> (r in ctx.Registers) == old(r in ctx.Registers) && ctx.Registers[r] == old(ctx.Registers[r])
+//@   ensures ctx.Transaction != nil && len(ctx.Transaction) == 0 && (forall r RegisterType :: !(r in ctx.Transaction))
+//@   assigns ctx.Registers[*], ctx.Transaction
+//@   loop 0: invariant forall r RegisterType :: visited(r) ==> old(r in ctx.Transaction) && r in ctx.Registers && ctx.Registers[r] == old(ctx.Transaction[r].value)
+//@   loop 0: invariant forall r RegisterType :: !visited(r) ==> (r in ctx.Registers) == old(r in ctx.Registers) && ctx.Registers[r] == old(ctx.Registers[r])
+
+// Rollback(s): only writes older than s (tag < s) take effect.
+//@ func (*Context).Rollback
+//@   mode int
+//@   requires ctx.Registers != nil && ctx.Transaction != nil
+//@   ensures forall r RegisterType :: old(r in ctx.Transaction) && old(ctx.Transaction[r].sequenceID) < sequenceID ==> r in ctx.Registers && ctx.Registers[r] == old(ctx.Transaction[r].value)
+//@   ensures forall r RegisterType :: !(old(r in ctx.Transaction) && old(ctx.Transaction[r].sequenceID) < sequenceID) ==> (r in ctx.Registers) == old(r in ctx.Registers) && ctx.Registers[r] == old(ctx.Registers[r])
+//@   ensures ctx.Transaction != nil && len(ctx.Transaction) == 0 && (forall r RegisterType :: !(r in ctx.Transaction))
+//@   assigns ctx.Registers[*], ctx.Transaction
+//@   loop 0: invariant forall r RegisterType :: visited(r) ==> old(r in ctx.Transaction)
+//@   loop 0: invariant forall r RegisterType :: visited(r) && old(ctx.Transaction[r].sequenceID) < sequenceID ==> r in ctx.Registers && ctx.Registers[r] == old(ctx.Transaction[r].value)
+//@   loop 0: invariant forall r RegisterType :: !(visited(r) && old(ctx.Transaction[r].sequenceID) < sequenceID) ==> (r in ctx.Registers) == old(r in ctx.Registers) && ctx.Registers[r] == old(ctx.Registers[r])
+
+// Rename table (RAT) level. comp.RAT is seen only through its abstract view
+// (comp.has / newest / slot / validSlot / rank / wfRAT are opaque here; their
+// meaning is established by the contracts verified in package comp).
+// committedRAT holds the architectural value of a register as its newest
+// entry; transactionRAT holds the uncommitted writes of a register in ring
+// order (rank 0 = most recent). "Youngest by tag" coincides with "most
+// recently written" when tags were written in non-decreasing order per
+// register (monoTags); out-of-order tags are the known finding F11.
+
+//@ spec func wfCtxRAT(ctx *Context) bool = ctx != nil && ctx.committedRAT != nil && ctx.transactionRAT != nil && comp.wfRAT(ctx.committedRAT) && comp.wfRAT(ctx.transactionRAT) \
+//@    && ctx.committedRAT.idx != ctx.transactionRAT.idx && ctx.committedRAT.wrapped != ctx.transactionRAT.wrapped
+//@ spec func monoTags(ctx *Context) bool = forall r RegisterType, i int, i2 int :: comp.validSlot(ctx.transactionRAT, r, i) && comp.validSlot(ctx.transactionRAT, r, i2) && comp.rank(ctx.transactionRAT, r, i) <= comp.rank(ctx.transactionRAT, r, i2) ==> comp.slot(ctx.transactionRAT, r, i).sequenceID >= comp.slot(ctx.transactionRAT, r, i2).sequenceID
+
+//@ func (*Context).TransactionRATWrite
+//@   mode int
+//@   reveal
+//@   requires wfCtxRAT(ctx)
+//@   ensures wfCtxRAT(ctx)
+//@   ensures comp.has(ctx.transactionRAT, exe.Register) && comp.newest(ctx.transactionRAT, exe.Register).sequenceID == sequenceID && comp.newest(ctx.transactionRAT, exe.Register).value == exe.RegisterValue
+//@   ensures forall r RegisterType :: r != exe.Register ==> comp.has(ctx.transactionRAT, r) == old(comp.has(ctx.transactionRAT, r)) && comp.newest(ctx.transactionRAT, r) == old(comp.newest(ctx.transactionRAT, r))
+//@   ensures forall r RegisterType, i int :: r != exe.Register ==> comp.slot(ctx.transactionRAT, r, i) == old(comp.slot(ctx.transactionRAT, r, i)) && comp.validSlot(ctx.transactionRAT, r, i) == old(comp.validSlot(ctx.transactionRAT, r, i)) && comp.rank(ctx.transactionRAT, r, i) == old(comp.rank(ctx.transactionRAT, r, i))
+//@   ensures forall r RegisterType :: comp.has(ctx.committedRAT, r) == old(comp.has(ctx.committedRAT, r)) && comp.newest(ctx.committedRAT, r) == old(comp.newest(ctx.committedRAT, r))
+//@   assigns ctx.transactionRAT.idx[*], ctx.transactionRAT.values[*], ctx.transactionRAT.wrapped[*], all []transactionUnit
+
+// RATCommit: every register with uncommitted writes takes the value of its
+// most recent write, every other register's architectural value is
+// unchanged, nothing stays uncommitted. Under monoTags the most recent write
+// is the one with the greatest tag (last postcondition).
+//@ func (*Context).RATCommit
+//@   mode int
+//@   requires wfCtxRAT(ctx)
+//@   ensures wfCtxRAT(ctx)
+//@   ensures forall r RegisterType :: old(comp.has(ctx.transactionRAT, r)) ==> comp.has(ctx.committedRAT, r) && comp.newest(ctx.committedRAT, r) == old(comp.newest(ctx.transactionRAT, r).value)
+//@   ensures forall r RegisterType :: !old(comp.has(ctx.transactionRAT, r)) ==> comp.has(ctx.committedRAT, r) == old(comp.has(ctx.committedRAT, r)) && comp.newest(ctx.committedRAT, r) == old(comp.newest(ctx.committedRAT, r))
+//@   ensures forall r RegisterType :: !comp.has(ctx.transactionRAT, r)
+//@   -- the committed write is the youngest by tag (program order): holds when tags were written in order
+//@   ensures forall r RegisterType, i int :: old(comp.validSlot(ctx.transactionRAT, r, i)) ==> old(comp.newest(ctx.transactionRAT, r).sequenceID) >= old(comp.slot(ctx.transactionRAT, r, i).sequenceID)
+//@   finding F11-out-of-order-tags: !monoTags(ctx)
+//@   assigns ctx.transactionRAT, ctx.committedRAT.idx[*], ctx.committedRAT.values[*], ctx.committedRAT.wrapped[*], all []int32
+//@   loop 0: invariant comp.wfRAT(ctx.committedRAT) && ctx.transactionRAT == old(ctx.transactionRAT) && ctx.committedRAT == old(ctx.committedRAT)
+//@   loop 0: invariant forall r RegisterType :: visited(r) ==> old(comp.has(ctx.transactionRAT, r)) && comp.has(ctx.committedRAT, r) && comp.newest(ctx.committedRAT, r) == old(comp.newest(ctx.transactionRAT, r).value)
+//@   loop 0: invariant forall r RegisterType :: !visited(r) ==> comp.has(ctx.committedRAT, r) == old(comp.has(ctx.committedRAT, r)) && comp.newest(ctx.committedRAT, r) == old(comp.newest(ctx.committedRAT, r))
+
+// RATRollback(s): every register takes the value of its most recent
+// uncommitted write older than s (tag < s); registers without such a write
+// keep their architectural value; nothing stays uncommitted.
+//@ func (*Context).RATRollback
+//@   mode int
+//@   requires wfCtxRAT(ctx)
+//@   ensures wfCtxRAT(ctx)
+//@   ensures forall r RegisterType, i int :: old(comp.validSlot(ctx.transactionRAT, r, i)) && old(comp.slot(ctx.transactionRAT, r, i).sequenceID) < sequenceID && (forall i2 int :: old(comp.validSlot(ctx.transactionRAT, r, i2)) && old(comp.slot(ctx.transactionRAT, r, i2).sequenceID) < sequenceID ==> old(comp.rank(ctx.transactionRAT, r, i)) <= old(comp.rank(ctx.transactionRAT, r, i2))) ==> comp.has(ctx.committedRAT, r) && comp.newest(ctx.committedRAT, r) == old(comp.slot(ctx.transactionRAT, r, i).value)
+//@   ensures forall r RegisterType :: !(exists i int :: old(comp.validSlot(ctx.transactionRAT, r, i)) && old(comp.slot(ctx.transactionRAT, r, i).sequenceID) < sequenceID) ==> comp.has(ctx.committedRAT, r) == old(comp.has(ctx.committedRAT, r)) && comp.newest(ctx.committedRAT, r) == old(comp.newest(ctx.committedRAT, r))
+//@   ensures forall r RegisterType :: !comp.has(ctx.transactionRAT, r)
+//@   assigns ctx.transactionRAT, ctx.committedRAT.idx[*], ctx.committedRAT.values[*], ctx.committedRAT.wrapped[*], all []int32
+//@   loop 0: invariant comp.wfRAT(ctx.committedRAT) && ctx.transactionRAT == old(ctx.transactionRAT) && ctx.committedRAT == old(ctx.committedRAT)
+//@   loop 0: invariant forall r RegisterType, i int :: visited(r) && old(comp.validSlot(ctx.transactionRAT, r, i)) && old(comp.slot(ctx.transactionRAT, r, i).sequenceID) < sequenceID && (forall i2 int :: old(comp.validSlot(ctx.transactionRAT, r, i2)) && old(comp.slot(ctx.transactionRAT, r, i2).sequenceID) < sequenceID ==> old(comp.rank(ctx.transactionRAT, r, i)) <= old(comp.rank(ctx.transactionRAT, r, i2))) ==> comp.has(ctx.committedRAT, r) && comp.newest(ctx.committedRAT, r) == old(comp.slot(ctx.transactionRAT, r, i).value)
+//@   loop 0: invariant forall r RegisterType :: visited(r) ==> (exists i int :: old(comp.validSlot(ctx.transactionRAT, r, i)) && old(comp.slot(ctx.transactionRAT, r, i).sequenceID) < sequenceID)
+//@   loop 0: invariant forall r RegisterType :: !visited(r) ==> comp.has(ctx.committedRAT, r) == old(comp.has(ctx.committedRAT, r)) && comp.newest(ctx.committedRAT, r) == old(comp.newest(ctx.committedRAT, r))
+
+//@ func (*Context).InitRAT
+//@   mode int
+//@   reveal
+//@   requires wfCtxRAT(ctx) && ctx.Registers != nil
+//@   ensures wfCtxRAT(ctx)
+//@   ensures forall r RegisterType :: r in ctx.Registers ==> comp.has(ctx.committedRAT, r) && comp.newest(ctx.committedRAT, r) == ctx.Registers[r]
+//@   ensures forall r RegisterType :: !(r in ctx.Registers) ==> comp.has(ctx.committedRAT, r) == old(comp.has(ctx.committedRAT, r)) && comp.newest(ctx.committedRAT, r) == old(comp.newest(ctx.committedRAT, r))
+//@   assigns ctx.committedRAT.idx[*], ctx.committedRAT.values[*], ctx.committedRAT.wrapped[*], all []int32
+//@   loop 0: invariant comp.wfRAT(ctx.committedRAT) && comp.wfRAT(ctx.transactionRAT) && ctx.committedRAT == old(ctx.committedRAT) && ctx.Registers == old(ctx.Registers)
+//@   loop 0: invariant forall r RegisterType :: visited(r) ==> r in ctx.Registers && comp.has(ctx.committedRAT, r) && comp.newest(ctx.committedRAT, r) == ctx.Registers[r]
+//@   loop 0: invariant forall r RegisterType :: !visited(r) ==> comp.has(ctx.committedRAT, r) == old(comp.has(ctx.committedRAT, r)) && comp.newest(ctx.committedRAT, r) == old(comp.newest(ctx.committedRAT, r))
+
+//@ func (*Context).RATFlush
+//@   mode int
+//@   requires wfCtxRAT(ctx) && ctx.Registers != nil
+//@   ensures forall r RegisterType :: comp.has(ctx.committedRAT, r) ==> r in ctx.Registers && ctx.Registers[r] == comp.newest(ctx.committedRAT, r)
+//@   ensures forall r RegisterType :: !comp.has(ctx.committedRAT, r) ==> (r in ctx.Registers) == old(r in ctx.Registers) && ctx.Registers[r] == old(ctx.Registers[r])
+//@   assigns ctx.Registers[*]
+//@   loop 0: invariant ctx.Registers == old(ctx.Registers) && fresh(_range0)
+//@   loop 0: invariant forall r RegisterType :: (r in _range0) == comp.has(ctx.committedRAT, r)
+//@   loop 0: invariant forall r RegisterType :: comp.has(ctx.committedRAT, r) ==> _range0[r] == comp.newest(ctx.committedRAT, r)
+//@   loop 0: invariant forall r RegisterType :: visited(r) ==> comp.has(ctx.committedRAT, r) && r in ctx.Registers && ctx.Registers[r] == comp.newest(ctx.committedRAT, r)
+//@   loop 0: invariant forall r RegisterType :: !visited(r) ==> (r in ctx.Registers) == old(r in ctx.Registers) && ctx.Registers[r] == old(ctx.Registers[r])
+
+// ---- generated by /verif/contracts/gen_risc.py from the RV32IM table ----
+
+//@ mode bv
+
+//@ -- add
+//@ func (*add).Run
+//@   requires wfZero(ctx, op.forward)
+//@   ensures result1 == nil
+//@   ensures result1 == nil ==> result.RegisterChange && !result.MemoryChange && !result.Return && !result.PcChange
+//@   ensures result1 == nil ==> result.Register == op.rd
+//@   ensures result1 == nil ==> result.RegisterValue == (op.rd == Zero ? 0 : (old(registerRead(ctx, op.forward, op.rs1, sequenceID))) + (old(registerRead(ctx, op.forward, op.rs2, sequenceID))))
+//@   assigns nothing
+//@ func (*add).ReadRegisters
+//@   ensures len(result) == 2 && ((result[0] == op.rs1 && result[1] == op.rs2) || (result[0] == op.rs2 && result[1] == op.rs1))
+//@   assigns nothing
+//@ func (*add).WriteRegisters
+//@   ensures len(result) == 1 && result[0] == op.rd
+//@   assigns nothing
+//@ func (*add).InstructionType
+//@   ensures result == Add
+//@   assigns nothing
+//@ func (*add).Forward
+//@   ensures op.forward == forward
+//@   assigns op.forward
+//@ func (*add).MemoryRead
+//@   ensures len(result) == 0
+//@   assigns nothing
+//@ func (*add).MemoryWrite
+//@   ensures len(result) == 0
+//@   assigns nothing
+
+//@ -- addi
+//@ func (*addi).Run
+//@   requires wfZero(ctx, op.forward)
+//@   ensures result1 == nil
+//@   ensures result1 == nil ==> result.RegisterChange && !result.MemoryChange && !result.Return && !result.PcChange
+//@   ensures result1 == nil ==> result.Register == op.rd
+//@   ensures result1 == nil ==> result.RegisterValue == (op.rd == Zero ? 0 : (old(registerRead(ctx, op.forward, op.rs, sequenceID))) + op.imm)
+//@   assigns nothing
+//@ func (*addi).ReadRegisters
+//@   ensures len(result) == 1 && result[0] == op.rs
+//@   assigns nothing
+//@ func (*addi).WriteRegisters
+//@   ensures len(result) == 1 && result[0] == op.rd
+//@   assigns nothing
+//@ func (*addi).InstructionType
+//@   ensures result == Addi
+//@   assigns nothing
+//@ func (*addi).Forward
+//@   ensures op.forward == forward
+//@   assigns op.forward
+//@ func (*addi).MemoryRead
+//@   ensures len(result) == 0
+//@   assigns nothing
+//@ func (*addi).MemoryWrite
+//@   ensures len(result) == 0
+//@   assigns nothing
+
+//@ -- and
+//@ func (*and).Run
+//@   requires wfZero(ctx, op.forward)
+//@   ensures result1 == nil
+//@   ensures result1 == nil ==> result.RegisterChange && !result.MemoryChange && !result.Return && !result.PcChange
+//@   ensures result1 == nil ==> result.Register == op.rd
+//@   ensures result1 == nil ==> result.RegisterValue == (op.rd == Zero ? 0 : (old(registerRead(ctx, op.forward, op.rs1, sequenceID))) & (old(registerRead(ctx, op.forward, op.rs2, sequenceID))))
+//@   assigns nothing
+//@ func (*and).ReadRegisters
+//@   ensures len(result) == 2 && ((result[0] == op.rs1 && result[1] == op.rs2) || (result[0] == op.rs2 && result[1] == op.rs1))
+//@   assigns nothing
+//@ func (*and).WriteRegisters
+//@   ensures len(result) == 1 && result[0] == op.rd
+//@   assigns nothing
+//@ func (*and).InstructionType
+//@   ensures result == And
+//@   assigns nothing
+//@ func (*and).Forward
+//@   ensures op.forward == forward
+//@   assigns op.forward
+//@ func (*and).MemoryRead
+//@   ensures len(result) == 0
+//@   assigns nothing
+//@ func (*and).MemoryWrite
+//@   ensures len(result) == 0
+//@   assigns nothing
+
+//@ -- andi
+//@ func (*andi).Run
+//@   requires wfZero(ctx, op.forward)
+//@   ensures result1 == nil
+//@   ensures result1 == nil ==> result.RegisterChange && !result.MemoryChange && !result.Return && !result.PcChange
+//@   ensures result1 == nil ==> result.Register == op.rd
+//@   ensures result1 == nil ==> result.RegisterValue == (op.rd == Zero ? 0 : (old(registerRead(ctx, op.forward, op.rs, sequenceID))) & op.imm)
+//@   assigns nothing
+//@ func (*andi).ReadRegisters
+//@   ensures len(result) == 1 && result[0] == op.rs
+//@   assigns nothing
+//@ func (*andi).WriteRegisters
+//@   ensures len(result) == 1 && result[0] == op.rd
+//@   assigns nothing
+//@ func (*andi).InstructionType
+//@   ensures result == Andi
+//@   assigns nothing
+//@ func (*andi).Forward
+//@   ensures op.forward == forward
+//@   assigns op.forward
+//@ func (*andi).MemoryRead
+//@   ensures len(result) == 0
+//@   assigns nothing
+//@ func (*andi).MemoryWrite
+//@   ensures len(result) == 0
+//@   assigns nothing
+
+//@ -- auipc
+//@ func (*auipc).Run
+//@   ensures result1 == nil
+//@   ensures result1 == nil ==> result.RegisterChange && !result.MemoryChange && !result.Return && !result.PcChange
+//@   ensures result1 == nil ==> result.Register == op.rd
+//@   ensures result1 == nil ==> result.RegisterValue == (op.rd == Zero ? 0 : pc + (op.imm << 12))
+//@   assigns nothing
+//@ func (*auipc).ReadRegisters
+//@   ensures len(result) == 0
+//@   assigns nothing
+//@ func (*auipc).WriteRegisters
+//@   ensures len(result) == 1 && result[0] == op.rd
+//@   assigns nothing
+//@ func (*auipc).InstructionType
+//@   ensures result == Auipc
+//@   assigns nothing
+//@ func (*auipc).Forward
+//@   assigns nothing
+//@ func (*auipc).MemoryRead
+//@   ensures len(result) == 0
+//@   assigns nothing
+//@ func (*auipc).MemoryWrite
+//@   ensures len(result) == 0
+//@   assigns nothing
+
+//@ -- beq
+//@ func (*beq).Run
+//@   requires wfZero(ctx, op.forward)
+//@   ensures (result1 == nil) == !(((old(registerRead(ctx, op.forward, op.rs1, sequenceID))) == (old(registerRead(ctx, op.forward, op.rs2, sequenceID)))) && !(op.label in labels))
+//@   ensures result1 == nil ==> result.PcChange == ((old(registerRead(ctx, op.forward, op.rs1, sequenceID))) == (old(registerRead(ctx, op.forward, op.rs2, sequenceID))))
+//@   ensures result1 == nil && ((old(registerRead(ctx, op.forward, op.rs1, sequenceID))) == (old(registerRead(ctx, op.forward, op.rs2, sequenceID)))) ==> result.NextPc == labels[op.label]
+//@   ensures !result.RegisterChange && !result.MemoryChange && !result.Return
+//@   assigns nothing
+//@ func (*beq).ReadRegisters
+//@   ensures len(result) == 2 && ((result[0] == op.rs1 && result[1] == op.rs2) || (result[0] == op.rs2 && result[1] == op.rs1))
+//@   assigns nothing
+//@ func (*beq).WriteRegisters
+//@   ensures len(result) == 0
+//@   assigns nothing
+//@ func (*beq).InstructionType
+//@   ensures result == Beq
+//@   assigns nothing
+//@ func (*beq).Forward
+//@   ensures op.forward == forward
+//@   assigns op.forward
+//@ func (*beq).MemoryRead
+//@   ensures len(result) == 0
+//@   assigns nothing
+//@ func (*beq).MemoryWrite
+//@   ensures len(result) == 0
+//@   assigns nothing
+
+//@ -- beqz
+//@ func (*beqz).Run
+//@   requires wfZero(ctx, op.forward)
+//@   ensures (result1 == nil) == !(((old(registerRead(ctx, op.forward, op.rs, sequenceID))) == 0) && !(op.label in labels))
+//@   ensures result1 == nil ==> result.PcChange == ((old(registerRead(ctx, op.forward, op.rs, sequenceID))) == 0)
+//@   ensures result1 == nil && ((old(registerRead(ctx, op.forward, op.rs, sequenceID))) == 0) ==> result.NextPc == labels[op.label]
+//@   ensures !result.RegisterChange && !result.MemoryChange && !result.Return
+//@   assigns nothing
+//@ func (*beqz).ReadRegisters
+//@   ensures len(result) == 1 && result[0] == op.rs
+//@   assigns nothing
+//@ func (*beqz).WriteRegisters
+//@   ensures len(result) == 0
+//@   assigns nothing
+//@ func (*beqz).InstructionType
+//@   ensures result == Beqz
+//@   assigns nothing
+//@ func (*beqz).Forward
+//@   ensures op.forward == forward
+//@   assigns op.forward
+//@ func (*beqz).MemoryRead
+//@   ensures len(result) == 0
+//@   assigns nothing
+//@ func (*beqz).MemoryWrite
+//@   ensures len(result) == 0
+//@   assigns nothing
+
+//@ -- bge
+//@ func (*bge).Run
+//@   requires wfZero(ctx, op.forward)
+//@   ensures (result1 == nil) == !(((old(registerRead(ctx, op.forward, op.rs1, sequenceID))) >= (old(registerRead(ctx, op.forward, op.rs2, sequenceID)))) && !(op.label in labels))
+//@   ensures result1 == nil ==> result.PcChange == ((old(registerRead(ctx, op.forward, op.rs1, sequenceID))) >= (old(registerRead(ctx, op.forward, op.rs2, sequenceID))))
+//@   ensures result1 == nil && ((old(registerRead(ctx, op.forward, op.rs1, sequenceID))) >= (old(registerRead(ctx, op.forward, op.rs2, sequenceID)))) ==> result.NextPc == labels[op.label]
+//@   ensures !result.RegisterChange && !result.MemoryChange && !result.Return
+//@   assigns nothing
+//@ func (*bge).ReadRegisters
+//@   ensures len(result) == 2 && ((result[0] == op.rs1 && result[1] == op.rs2) || (result[0] == op.rs2 && result[1] == op.rs1))
+//@   assigns nothing
+//@ func (*bge).WriteRegisters
+//@   ensures len(result) == 0
+//@   assigns nothing
+//@ func (*bge).InstructionType
+//@   ensures result == Bge
+//@   assigns nothing
+//@ func (*bge).Forward
+//@   ensures op.forward == forward
+//@   assigns op.forward
+//@ func (*bge).MemoryRead
+//@   ensures len(result) == 0
+//@   assigns nothing
+//@ func (*bge).MemoryWrite
+//@   ensures len(result) == 0
+//@   assigns nothing
+
+//@ -- bgeu
+//@ func (*bgeu).Run
+//@   requires wfZero(ctx, op.forward)
+//@   ensures (result1 == nil) == !((uint32((old(registerRead(ctx, op.forward, op.rs1, sequenceID)))) >= uint32((old(registerRead(ctx, op.forward, op.rs2, sequenceID))))) && !(op.label in labels))
+//@   ensures result1 == nil ==> result.PcChange == (uint32((old(registerRead(ctx, op.forward, op.rs1, sequenceID)))) >= uint32((old(registerRead(ctx, op.forward, op.rs2, sequenceID)))))
+//@   ensures result1 == nil && (uint32((old(registerRead(ctx, op.forward, op.rs1, sequenceID)))) >= uint32((old(registerRead(ctx, op.forward, op.rs2, sequenceID))))) ==> result.NextPc == labels[op.label]
+//@   ensures !result.RegisterChange && !result.MemoryChange && !result.Return
+//@   assigns nothing
+//@ func (*bgeu).ReadRegisters
+//@   ensures len(result) == 2 && ((result[0] == op.rs1 && result[1] == op.rs2) || (result[0] == op.rs2 && result[1] == op.rs1))
+//@   assigns nothing
+//@ func (*bgeu).WriteRegisters
+//@   ensures len(result) == 0
+//@   assigns nothing
+//@ func (*bgeu).InstructionType
+//@   ensures result == Bgeu
+//@   assigns nothing
+//@ func (*bgeu).Forward
+//@   ensures op.forward == forward
+//@   assigns op.forward
+//@ func (*bgeu).MemoryRead
+//@   ensures len(result) == 0
+//@   assigns nothing
+//@ func (*bgeu).MemoryWrite
+//@   ensures len(result) == 0
+//@   assigns nothing
+
+//@ -- ble
+//@ func (*ble).Run
+//@   requires wfZero(ctx, op.forward)
+//@   ensures (result1 == nil) == !(((old(registerRead(ctx, op.forward, op.rs1, sequenceID))) <= (old(registerRead(ctx, op.forward, op.rs2, sequenceID)))) && !(op.label in labels))
+//@   ensures result1 == nil ==> result.PcChange == ((old(registerRead(ctx, op.forward, op.rs1, sequenceID))) <= (old(registerRead(ctx, op.forward, op.rs2, sequenceID))))
+//@   ensures result1 == nil && ((old(registerRead(ctx, op.forward, op.rs1, sequenceID))) <= (old(registerRead(ctx, op.forward, op.rs2, sequenceID)))) ==> result.NextPc == labels[op.label]
+//@   ensures !result.RegisterChange && !result.MemoryChange && !result.Return
+//@   assigns nothing
+//@ func (*ble).ReadRegisters
+//@   ensures len(result) == 2 && ((result[0] == op.rs1 && result[1] == op.rs2) || (result[0] == op.rs2 && result[1] == op.rs1))
+//@   assigns nothing
+//@ func (*ble).WriteRegisters
+//@   ensures len(result) == 0
+//@   assigns nothing
+//@ func (*ble).InstructionType
+//@   ensures result == Ble
+//@   assigns nothing
+//@ func (*ble).Forward
+//@   ensures op.forward == forward
+//@   assigns op.forward
+//@ func (*ble).MemoryRead
+//@   ensures len(result) == 0
+//@   assigns nothing
+//@ func (*ble).MemoryWrite
+//@   ensures len(result) == 0
+//@   assigns nothing
+
+//@ -- blt
+//@ func (*blt).Run
+//@   requires wfZero(ctx, op.forward)
+//@   ensures (result1 == nil) == !(((old(registerRead(ctx, op.forward, op.rs1, sequenceID))) < (old(registerRead(ctx, op.forward, op.rs2, sequenceID)))) && !(op.label in labels))
+//@   ensures result1 == nil ==> result.PcChange == ((old(registerRead(ctx, op.forward, op.rs1, sequenceID))) < (old(registerRead(ctx, op.forward, op.rs2, sequenceID))))
+//@   ensures result1 == nil && ((old(registerRead(ctx, op.forward, op.rs1, sequenceID))) < (old(registerRead(ctx, op.forward, op.rs2, sequenceID)))) ==> result.NextPc == labels[op.label]
+//@   ensures !result.RegisterChange && !result.MemoryChange && !result.Return
+//@   assigns nothing
+//@ func (*blt).ReadRegisters
+//@   ensures len(result) == 2 && ((result[0] == op.rs1 && result[1] == op.rs2) || (result[0] == op.rs2 && result[1] == op.rs1))
+//@   assigns nothing
+//@ func (*blt).WriteRegisters
+//@   ensures len(result) == 0
+//@   assigns nothing
+//@ func (*blt).InstructionType
+//@   ensures result == Blt
+//@   assigns nothing
+//@ func (*blt).Forward
+//@   ensures op.forward == forward
+//@   assigns op.forward
+//@ func (*blt).MemoryRead
+//@   ensures len(result) == 0
+//@   assigns nothing
+//@ func (*blt).MemoryWrite
+//@   ensures len(result) == 0
+//@   assigns nothing
+
+//@ -- bltu
+//@ func (*bltu).Run
+//@   requires wfZero(ctx, op.forward)
+//@   ensures (result1 == nil) == !((uint32((old(registerRead(ctx, op.forward, op.rs1, sequenceID)))) < uint32((old(registerRead(ctx, op.forward, op.rs2, sequenceID))))) && !(op.label in labels))
+//@   ensures result1 == nil ==> result.PcChange == (uint32((old(registerRead(ctx, op.forward, op.rs1, sequenceID)))) < uint32((old(registerRead(ctx, op.forward, op.rs2, sequenceID)))))
+//@   ensures result1 == nil && (uint32((old(registerRead(ctx, op.forward, op.rs1, sequenceID)))) < uint32((old(registerRead(ctx, op.forward, op.rs2, sequenceID))))) ==> result.NextPc == labels[op.label]
+//@   ensures !result.RegisterChange && !result.MemoryChange && !result.Return
+//@   assigns nothing
+//@ func (*bltu).ReadRegisters
+//@   ensures len(result) == 2 && ((result[0] == op.rs1 && result[1] == op.rs2) || (result[0] == op.rs2 && result[1] == op.rs1))
+//@   assigns nothing
+//@ func (*bltu).WriteRegisters
+//@   ensures len(result) == 0
+//@   assigns nothing
+//@ func (*bltu).InstructionType
+//@   ensures result == Bltu
+//@   assigns nothing
+//@ func (*bltu).Forward
+//@   ensures op.forward == forward
+//@   assigns op.forward
+//@ func (*bltu).MemoryRead
+//@   ensures len(result) == 0
+//@   assigns nothing
+//@ func (*bltu).MemoryWrite
+//@   ensures len(result) == 0
+//@   assigns nothing
+
+//@ -- bne
+//@ func (*bne).Run
+//@   requires wfZero(ctx, op.forward)
+//@   ensures (result1 == nil) == !(((old(registerRead(ctx, op.forward, op.rs1, sequenceID))) != (old(registerRead(ctx, op.forward, op.rs2, sequenceID)))) && !(op.label in labels))
+//@   ensures result1 == nil ==> result.PcChange == ((old(registerRead(ctx, op.forward, op.rs1, sequenceID))) != (old(registerRead(ctx, op.forward, op.rs2, sequenceID))))
+//@   ensures result1 == nil && ((old(registerRead(ctx, op.forward, op.rs1, sequenceID))) != (old(registerRead(ctx, op.forward, op.rs2, sequenceID)))) ==> result.NextPc == labels[op.label]
+//@   ensures !result.RegisterChange && !result.MemoryChange && !result.Return
+//@   assigns nothing
+//@ func (*bne).ReadRegisters
+//@   ensures len(result) == 2 && ((result[0] == op.rs1 && result[1] == op.rs2) || (result[0] == op.rs2 && result[1] == op.rs1))
+//@   assigns nothing
+//@ func (*bne).WriteRegisters
+//@   ensures len(result) == 0
+//@   assigns nothing
+//@ func (*bne).InstructionType
+//@   ensures result == Bne
+//@   assigns nothing
+//@ func (*bne).Forward
+//@   ensures op.forward == forward
+//@   assigns op.forward
+//@ func (*bne).MemoryRead
+//@   ensures len(result) == 0
+//@   assigns nothing
+//@ func (*bne).MemoryWrite
+//@   ensures len(result) == 0
+//@   assigns nothing
+
+//@ -- bnez
+//@ func (*bnez).Run
+//@   requires wfZero(ctx, op.forward)
+//@   ensures (result1 == nil) == !(((old(registerRead(ctx, op.forward, op.rs, sequenceID))) != 0) && !(op.label in labels))
+//@   ensures result1 == nil ==> result.PcChange == ((old(registerRead(ctx, op.forward, op.rs, sequenceID))) != 0)
+//@   ensures result1 == nil && ((old(registerRead(ctx, op.forward, op.rs, sequenceID))) != 0) ==> result.NextPc == labels[op.label]
+//@   ensures !result.RegisterChange && !result.MemoryChange && !result.Return
+//@   assigns nothing
+//@ func (*bnez).ReadRegisters
+//@   ensures len(result) == 1 && result[0] == op.rs
+//@   assigns nothing
+//@ func (*bnez).WriteRegisters
+//@   ensures len(result) == 0
+//@   assigns nothing
+//@ func (*bnez).InstructionType
+//@   ensures result == Bnez
+//@   assigns nothing
+//@ func (*bnez).Forward
+//@   ensures op.forward == forward
+//@   assigns op.forward
+//@ func (*bnez).MemoryRead
+//@   ensures len(result) == 0
+//@   assigns nothing
+//@ func (*bnez).MemoryWrite
+//@   ensures len(result) == 0
+//@   assigns nothing
+
+//@ -- div
+//@ func (*div).Run
+//@   requires wfZero(ctx, op.forward)
+//@   ensures (result1 == nil) == (old(registerRead(ctx, op.forward, op.rs2, sequenceID)) != 0)
+//@   ensures result1 == nil ==> result.RegisterChange && !result.MemoryChange && !result.Return && !result.PcChange
+//@   ensures result1 == nil ==> result.Register == op.rd
+//@   ensures result1 == nil ==> result.RegisterValue == (op.rd == Zero ? 0 : (((old(registerRead(ctx, op.forward, op.rs1, sequenceID))) == -2147483648 && (old(registerRead(ctx, op.forward, op.rs2, sequenceID))) == -1) ? -2147483648 : (old(registerRead(ctx, op.forward, op.rs1, sequenceID))) / (old(registerRead(ctx, op.forward, op.rs2, sequenceID)))))
+//@   assigns nothing
+//@ func (*div).ReadRegisters
+//@   ensures len(result) == 2 && ((result[0] == op.rs1 && result[1] == op.rs2) || (result[0] == op.rs2 && result[1] == op.rs1))
+//@   assigns nothing
+//@ func (*div).WriteRegisters
+//@   ensures len(result) == 1 && result[0] == op.rd
+//@   assigns nothing
+//@ func (*div).InstructionType
+//@   ensures result == Div
+//@   assigns nothing
+//@ func (*div).Forward
+//@   ensures op.forward == forward
+//@   assigns op.forward
+//@ func (*div).MemoryRead
+//@   ensures len(result) == 0
+//@   assigns nothing
+//@ func (*div).MemoryWrite
+//@   ensures len(result) == 0
+//@   assigns nothing
+
+//@ -- j
+//@ func (*j).Run
+//@   ensures (result1 == nil) == !((true) && !(op.label in labels))
+//@   ensures result1 == nil ==> result.PcChange == (true)
+//@   ensures result1 == nil && (true) ==> result.NextPc == labels[op.label]
+//@   ensures !result.RegisterChange && !result.MemoryChange && !result.Return
+//@   assigns nothing
+//@ func (*j).ReadRegisters
+//@   ensures len(result) == 0
+//@   assigns nothing
+//@ func (*j).WriteRegisters
+//@   ensures len(result) == 0
+//@   assigns nothing
+//@ func (*j).InstructionType
+//@   ensures result == J
+//@   assigns nothing
+//@ func (*j).Forward
+//@   assigns nothing
+//@ func (*j).MemoryRead
+//@   ensures len(result) == 0
+//@   assigns nothing
+//@ func (*j).MemoryWrite
+//@   ensures len(result) == 0
+//@   assigns nothing
+
+//@ -- jal
+//@ func (*jal).Run
+//@   requires ctx != nil
+//@   ensures (result1 == nil) == (op.label in labels)
+//@   ensures result1 == nil ==> result.RegisterChange && !result.MemoryChange && !result.Return && result.PcChange
+//@   ensures result1 == nil ==> result.Register == op.rd
+//@   ensures result1 == nil ==> result.RegisterValue == (op.rd == Zero ? 0 : pc + 4)
+//@   ensures result1 == nil ==> result.NextPc == labels[op.label]
+//@   assigns nothing
+//@ func (*jal).ReadRegisters
+//@   ensures len(result) == 0
+//@   assigns nothing
+//@ func (*jal).WriteRegisters
+//@   ensures len(result) == 1 && result[0] == op.rd
+//@   assigns nothing
+//@ func (*jal).InstructionType
+//@   ensures result == Jal
+//@   assigns nothing
+//@ func (*jal).Forward
+//@   ensures op.forward == forward
+//@   assigns op.forward
+//@ func (*jal).MemoryRead
+//@   ensures len(result) == 0
+//@   assigns nothing
+//@ func (*jal).MemoryWrite
+//@   ensures len(result) == 0
+//@   assigns nothing
+
+//@ -- jalr
+//@ func (*jalr).Run
+//@   requires wfZero(ctx, op.forward)
+//@   requires ((registerRead(ctx, op.forward, op.rs, sequenceID) + op.imm) & 1) == 0
+//@   ensures result1 == nil
+//@   ensures result1 == nil ==> result.RegisterChange && !result.MemoryChange && !result.Return && result.PcChange
+//@   ensures result1 == nil ==> result.Register == op.rd
+//@   ensures result1 == nil ==> result.RegisterValue == (op.rd == Zero ? 0 : pc + 4)
+//@   ensures result1 == nil ==> result.NextPc == (old(registerRead(ctx, op.forward, op.rs, sequenceID)) + op.imm)
+//@   assigns nothing
+//@ func (*jalr).ReadRegisters
+//@   ensures len(result) == 1 && result[0] == op.rs
+//@   assigns nothing
+//@ func (*jalr).WriteRegisters
+//@   ensures len(result) == 1 && result[0] == op.rd
+//@   assigns nothing
+//@ func (*jalr).InstructionType
+//@   ensures result == Jalr
+//@   assigns nothing
+//@ func (*jalr).Forward
+//@   ensures op.forward == forward
+//@   assigns op.forward
+//@ func (*jalr).MemoryRead
+//@   ensures len(result) == 0
+//@   assigns nothing
+//@ func (*jalr).MemoryWrite
+//@   ensures len(result) == 0
+//@   assigns nothing
+
+//@ -- lb
+//@ func (*lb).Run
+//@   requires ctx != nil
+//@   requires len(memory) >= 1
+//@   ensures result1 == nil
+//@   ensures result1 == nil ==> result.RegisterChange && !result.MemoryChange && !result.Return && !result.PcChange
+//@   ensures result1 == nil ==> result.Register == op.rd
+//@   ensures result1 == nil ==> result.RegisterValue == (op.rd == Zero ? 0 : int32(memory[0]))
+//@   assigns nothing
+//@ func (*lb).ReadRegisters
+//@   ensures len(result) == 1 && result[0] == op.rs
+//@   assigns nothing
+//@ func (*lb).WriteRegisters
+//@   ensures len(result) == 1 && result[0] == op.rd
+//@   assigns nothing
+//@ func (*lb).InstructionType
+//@   ensures result == Lb
+//@   assigns nothing
+//@ func (*lb).Forward
+//@   ensures op.forward == forward
+//@   assigns op.forward
+//@ func (*lb).MemoryRead
+//@   requires wfZero(ctx, op.forward)
+//@   ensures len(result) == 1
+//@   ensures result[0] == old(registerRead(ctx, op.forward, op.rs, sequenceID)) + op.offset + 0
+//@   assigns nothing
+//@ func (*lb).MemoryWrite
+//@   ensures len(result) == 0
+//@   assigns nothing
+
+//@ -- lh
+//@ func (*lh).Run
+//@   requires ctx != nil
+//@   requires len(memory) >= 2
+//@   ensures result1 == nil
+//@   ensures result1 == nil ==> result.RegisterChange && !result.MemoryChange && !result.Return && !result.PcChange
+//@   ensures result1 == nil ==> result.Register == op.rd
+//@   ensures result1 == nil ==> result.RegisterValue == (op.rd == Zero ? 0 : int32(int16(uint16(uint8(memory[0])) | (uint16(uint8(memory[1])) << 8))))
+//@   assigns nothing
+//@ func (*lh).ReadRegisters
+//@   ensures len(result) == 1 && result[0] == op.rs
+//@   assigns nothing
+//@ func (*lh).WriteRegisters
+//@   ensures len(result) == 1 && result[0] == op.rd
+//@   assigns nothing
+//@ func (*lh).InstructionType
+//@   ensures result == Lh
+//@   assigns nothing
+//@ func (*lh).Forward
+//@   ensures op.forward == forward
+//@   assigns op.forward
+//@ func (*lh).MemoryRead
+//@   requires wfZero(ctx, op.forward)
+//@   ensures len(result) == 2
+//@   ensures result[0] == old(registerRead(ctx, op.forward, op.rs, sequenceID)) + op.offset + 0
+//@   ensures result[1] == old(registerRead(ctx, op.forward, op.rs, sequenceID)) + op.offset + 1
+//@   assigns nothing
+//@ func (*lh).MemoryWrite
+//@   ensures len(result) == 0
+//@   assigns nothing
+
+//@ -- li
+//@ func (*li).Run
+//@   ensures result1 == nil
+//@   ensures result1 == nil ==> result.RegisterChange && !result.MemoryChange && !result.Return && !result.PcChange
+//@   ensures result1 == nil ==> result.Register == op.rd
+//@   ensures result1 == nil ==> result.RegisterValue == (op.rd == Zero ? 0 : op.imm)
+//@   assigns nothing
+//@ func (*li).ReadRegisters
+//@   ensures len(result) == 0
+//@   assigns nothing
+//@ func (*li).WriteRegisters
+//@   ensures len(result) == 1 && result[0] == op.rd
+//@   assigns nothing
+//@ func (*li).InstructionType
+//@   ensures result == Li
+//@   assigns nothing
+//@ func (*li).Forward
+//@   assigns nothing
+//@ func (*li).MemoryRead
+//@   ensures len(result) == 0
+//@   assigns nothing
+//@ func (*li).MemoryWrite
+//@   ensures len(result) == 0
+//@   assigns nothing
+
+//@ -- lui
+//@ func (*lui).Run
+//@   ensures result1 == nil
+//@   ensures result1 == nil ==> result.RegisterChange && !result.MemoryChange && !result.Return && !result.PcChange
+//@   ensures result1 == nil ==> result.Register == op.rd
+//@   ensures result1 == nil ==> result.RegisterValue == (op.rd == Zero ? 0 : op.imm << 12)
+//@   assigns nothing
+//@ func (*lui).ReadRegisters
+//@   ensures len(result) == 0
+//@   assigns nothing
+//@ func (*lui).WriteRegisters
+//@   ensures len(result) == 1 && result[0] == op.rd
+//@   assigns nothing
+//@ func (*lui).InstructionType
+//@   ensures result == Lui
+//@   assigns nothing
+//@ func (*lui).Forward
+//@   assigns nothing
+//@ func (*lui).MemoryRead
+//@   ensures len(result) == 0
+//@   assigns nothing
+//@ func (*lui).MemoryWrite
+//@   ensures len(result) == 0
+//@   assigns nothing
+
+//@ -- lw
+//@ func (*lw).Run
+//@   requires ctx != nil
+//@   requires len(memory) >= 4
+//@   ensures result1 == nil
+//@   ensures result1 == nil ==> result.RegisterChange && !result.MemoryChange && !result.Return && !result.PcChange
+//@   ensures result1 == nil ==> result.Register == op.rd
+//@   ensures result1 == nil ==> result.RegisterValue == (op.rd == Zero ? 0 : int32(uint32(uint8(memory[0])) | (uint32(uint8(memory[1])) << 8) | (uint32(uint8(memory[2])) << 16) | (uint32(uint8(memory[3])) << 24)))
+//@   assigns nothing
+//@ func (*lw).ReadRegisters
+//@   ensures len(result) == 1 && result[0] == op.rs
+//@   assigns nothing
+//@ func (*lw).WriteRegisters
+//@   ensures len(result) == 1 && result[0] == op.rd
+//@   assigns nothing
+//@ func (*lw).InstructionType
+//@   ensures result == Lw
+//@   assigns nothing
+//@ func (*lw).Forward
+//@   ensures op.forward == forward
+//@   assigns op.forward
+//@ func (*lw).MemoryRead
+//@   requires wfZero(ctx, op.forward)
+//@   ensures len(result) == 4
+//@   ensures result[0] == old(registerRead(ctx, op.forward, op.rs, sequenceID)) + op.offset + 0
+//@   ensures result[1] == old(registerRead(ctx, op.forward, op.rs, sequenceID)) + op.offset + 1
+//@   ensures result[2] == old(registerRead(ctx, op.forward, op.rs, sequenceID)) + op.offset + 2
+//@   ensures result[3] == old(registerRead(ctx, op.forward, op.rs, sequenceID)) + op.offset + 3
+//@   assigns nothing
+//@ func (*lw).MemoryWrite
+//@   ensures len(result) == 0
+//@   assigns nothing
+
+//@ -- mul
+//@ func (*mul).Run
+//@   requires wfZero(ctx, op.forward)
+//@   ensures result1 == nil
+//@   ensures result1 == nil ==> result.RegisterChange && !result.MemoryChange && !result.Return && !result.PcChange
+//@   ensures result1 == nil ==> result.Register == op.rd
+//@   ensures result1 == nil ==> result.RegisterValue == (op.rd == Zero ? 0 : (old(registerRead(ctx, op.forward, op.rs1, sequenceID))) * (old(registerRead(ctx, op.forward, op.rs2, sequenceID))))
+//@   assigns nothing
+//@ func (*mul).ReadRegisters
+//@   ensures len(result) == 2 && ((result[0] == op.rs1 && result[1] == op.rs2) || (result[0] == op.rs2 && result[1] == op.rs1))
+//@   assigns nothing
+//@ func (*mul).WriteRegisters
+//@   ensures len(result) == 1 && result[0] == op.rd
+//@   assigns nothing
+//@ func (*mul).InstructionType
+//@   ensures result == Mul
+//@   assigns nothing
+//@ func (*mul).Forward
+//@   ensures op.forward == forward
+//@   assigns op.forward
+//@ func (*mul).MemoryRead
+//@   ensures len(result) == 0
+//@   assigns nothing
+//@ func (*mul).MemoryWrite
+//@   ensures len(result) == 0
+//@   assigns nothing
+
+//@ -- mv
+//@ func (*mv).Run
+//@   requires wfZero(ctx, op.forward)
+//@   ensures result1 == nil
+//@   ensures result1 == nil ==> result.RegisterChange && !result.MemoryChange && !result.Return && !result.PcChange
+//@   ensures result1 == nil ==> result.Register == op.rd
+//@   ensures result1 == nil ==> result.RegisterValue == (op.rd == Zero ? 0 : old(registerRead(ctx, op.forward, op.rs, sequenceID)))
+//@   assigns nothing
+//@ func (*mv).ReadRegisters
+//@   ensures len(result) == 1 && result[0] == op.rs
+//@   assigns nothing
+//@ func (*mv).WriteRegisters
+//@   ensures len(result) == 1 && result[0] == op.rd
+//@   assigns nothing
+//@ func (*mv).InstructionType
+//@   ensures result == Mv
+//@   assigns nothing
+//@ func (*mv).Forward
+//@   ensures op.forward == forward
+//@   assigns op.forward
+//@ func (*mv).MemoryRead
+//@   ensures len(result) == 0
+//@   assigns nothing
+//@ func (*mv).MemoryWrite
+//@   ensures len(result) == 0
+//@   assigns nothing
+
+//@ -- nop
+//@ func (*nop).Run
+//@   ensures result1 == nil
+//@   ensures !result.RegisterChange && !result.MemoryChange && !result.PcChange && !result.Return
+//@   assigns nothing
+//@ func (*nop).ReadRegisters
+//@   ensures len(result) == 0
+//@   assigns nothing
+//@ func (*nop).WriteRegisters
+//@   ensures len(result) == 0
+//@   assigns nothing
+//@ func (*nop).InstructionType
+//@   ensures result == Nop
+//@   assigns nothing
+//@ func (*nop).Forward
+//@   assigns nothing
+//@ func (*nop).MemoryRead
+//@   ensures len(result) == 0
+//@   assigns nothing
+//@ func (*nop).MemoryWrite
+//@   ensures len(result) == 0
+//@   assigns nothing
+
+//@ -- or
+//@ func (*or).Run
+//@   requires wfZero(ctx, op.forward)
+//@   ensures result1 == nil
+//@   ensures result1 == nil ==> result.RegisterChange && !result.MemoryChange && !result.Return && !result.PcChange
+//@   ensures result1 == nil ==> result.Register == op.rd
+//@   ensures result1 == nil ==> result.RegisterValue == (op.rd == Zero ? 0 : (old(registerRead(ctx, op.forward, op.rs1, sequenceID))) | (old(registerRead(ctx, op.forward, op.rs2, sequenceID))))
+//@   assigns nothing
+//@ func (*or).ReadRegisters
+//@   ensures len(result) == 2 && ((result[0] == op.rs1 && result[1] == op.rs2) || (result[0] == op.rs2 && result[1] == op.rs1))
+//@   assigns nothing
+//@ func (*or).WriteRegisters
+//@   ensures len(result) == 1 && result[0] == op.rd
+//@   assigns nothing
+//@ func (*or).InstructionType
+//@   ensures result == Or
+//@   assigns nothing
+//@ func (*or).Forward
+//@   ensures op.forward == forward
+//@   assigns op.forward
+//@ func (*or).MemoryRead
+//@   ensures len(result) == 0
+//@   assigns nothing
+//@ func (*or).MemoryWrite
+//@   ensures len(result) == 0
+//@   assigns nothing
+
+//@ -- ori
+//@ func (*ori).Run
+//@   requires wfZero(ctx, op.forward)
+//@   ensures result1 == nil
+//@   ensures result1 == nil ==> result.RegisterChange && !result.MemoryChange && !result.Return && !result.PcChange
+//@   ensures result1 == nil ==> result.Register == op.rd
+//@   ensures result1 == nil ==> result.RegisterValue == (op.rd == Zero ? 0 : (old(registerRead(ctx, op.forward, op.rs, sequenceID))) | op.imm)
+//@   assigns nothing
+//@ func (*ori).ReadRegisters
+//@   ensures len(result) == 1 && result[0] == op.rs
+//@   assigns nothing
+//@ func (*ori).WriteRegisters
+//@   ensures len(result) == 1 && result[0] == op.rd
+//@   assigns nothing
+//@ func (*ori).InstructionType
+//@   ensures result == Ori
+//@   assigns nothing
+//@ func (*ori).Forward
+//@   ensures op.forward == forward
+//@   assigns op.forward
+//@ func (*ori).MemoryRead
+//@   ensures len(result) == 0
+//@   assigns nothing
+//@ func (*ori).MemoryWrite
+//@   ensures len(result) == 0
+//@   assigns nothing
+
+//@ -- rem
+//@ func (*rem).Run
+//@   requires wfZero(ctx, op.forward)
+//@   ensures (result1 == nil) == (old(registerRead(ctx, op.forward, op.rs2, sequenceID)) != 0)
+//@   ensures result1 == nil ==> result.RegisterChange && !result.MemoryChange && !result.Return && !result.PcChange
+//@   ensures result1 == nil ==> result.Register == op.rd
+//@   ensures result1 == nil ==> result.RegisterValue == (op.rd == Zero ? 0 : (((old(registerRead(ctx, op.forward, op.rs1, sequenceID))) == -2147483648 && (old(registerRead(ctx, op.forward, op.rs2, sequenceID))) == -1) ? 0 : (old(registerRead(ctx, op.forward, op.rs1, sequenceID))) % (old(registerRead(ctx, op.forward, op.rs2, sequenceID)))))
+//@   assigns nothing
+//@ func (*rem).ReadRegisters
+//@   ensures len(result) == 2 && ((result[0] == op.rs1 && result[1] == op.rs2) || (result[0] == op.rs2 && result[1] == op.rs1))
+//@   assigns nothing
+//@ func (*rem).WriteRegisters
+//@   ensures len(result) == 1 && result[0] == op.rd
+//@   assigns nothing
+//@ func (*rem).InstructionType
+//@   ensures result == Rem
+//@   assigns nothing
+//@ func (*rem).Forward
+//@   ensures op.forward == forward
+//@   assigns op.forward
+//@ func (*rem).MemoryRead
+//@   ensures len(result) == 0
+//@   assigns nothing
+//@ func (*rem).MemoryWrite
+//@   ensures len(result) == 0
+//@   assigns nothing
+
+//@ -- ret
+//@ func (*ret).Run
+//@   ensures result1 == nil
+//@   ensures result.Return && !result.RegisterChange && !result.MemoryChange && !result.PcChange
+//@   assigns nothing
+//@ func (*ret).ReadRegisters
+//@   ensures len(result) == 0
+//@   assigns nothing
+//@ func (*ret).WriteRegisters
+//@   ensures len(result) == 0
+//@   assigns nothing
+//@ func (*ret).InstructionType
+//@   ensures result == Ret
+//@   assigns nothing
+//@ func (*ret).Forward
+//@   assigns nothing
+//@ func (*ret).MemoryRead
+//@   ensures len(result) == 0
+//@   assigns nothing
+//@ func (*ret).MemoryWrite
+//@   ensures len(result) == 0
+//@   assigns nothing
+
+//@ -- sb
+//@ func (*sb).Run
+//@   requires wfZero(ctx, op.forward)
+//@   ensures result1 == nil
+//@   ensures result.MemoryChange && !result.RegisterChange && !result.PcChange && !result.Return
+//@   ensures len(result.MemoryChanges) == 1
+//@   ensures dom(result.MemoryChanges) == {old(registerRead(ctx, op.forward, op.rd, sequenceID)) + op.offset + 0}
+//@   ensures result.MemoryChanges[old(registerRead(ctx, op.forward, op.rd, sequenceID)) + op.offset + 0] == int8(uint32(old(registerRead(ctx, op.forward, op.rs, sequenceID))) >> 0)
+//@   assigns nothing
+//@ func (*sb).ReadRegisters
+//@   ensures len(result) == 2 && ((result[0] == op.rd && result[1] == op.rs) || (result[0] == op.rs && result[1] == op.rd))
+//@   assigns nothing
+//@ func (*sb).WriteRegisters
+//@   ensures len(result) == 0
+//@   assigns nothing
+//@ func (*sb).InstructionType
+//@   ensures result == Sb
+//@   assigns nothing
+//@ func (*sb).Forward
+//@   ensures op.forward == forward
+//@   assigns op.forward
+//@ func (*sb).MemoryRead
+//@   ensures len(result) == 0
+//@   assigns nothing
+//@ func (*sb).MemoryWrite
+//@   requires wfZero(ctx, op.forward)
+//@   ensures len(result) == 1
+//@   ensures result[0] == old(registerRead(ctx, op.forward, op.rd, sequenceID)) + op.offset + 0
+//@   assigns nothing
+
+//@ -- sh
+//@ func (*sh).Run
+//@   requires wfZero(ctx, op.forward)
+//@   ensures result1 == nil
+//@   ensures result.MemoryChange && !result.RegisterChange && !result.PcChange && !result.Return
+//@   ensures len(result.MemoryChanges) == 2
+//@   ensures dom(result.MemoryChanges) == {old(registerRead(ctx, op.forward, op.rd, sequenceID)) + op.offset + 0, old(registerRead(ctx, op.forward, op.rd, sequenceID)) + op.offset + 1}
+//@   ensures result.MemoryChanges[old(registerRead(ctx, op.forward, op.rd, sequenceID)) + op.offset + 0] == int8(uint32(old(registerRead(ctx, op.forward, op.rs, sequenceID))) >> 0)
+//@   ensures result.MemoryChanges[old(registerRead(ctx, op.forward, op.rd, sequenceID)) + op.offset + 1] == int8(uint32(old(registerRead(ctx, op.forward, op.rs, sequenceID))) >> 8)
+//@   assigns nothing
+//@ func (*sh).ReadRegisters
+//@   ensures len(result) == 2 && ((result[0] == op.rd && result[1] == op.rs) || (result[0] == op.rs && result[1] == op.rd))
+//@   assigns nothing
+//@ func (*sh).WriteRegisters
+//@   ensures len(result) == 0
+//@   assigns nothing
+//@ func (*sh).InstructionType
+//@   ensures result == Sh
+//@   assigns nothing
+//@ func (*sh).Forward
+//@   ensures op.forward == forward
+//@   assigns op.forward
+//@ func (*sh).MemoryRead
+//@   ensures len(result) == 0
+//@   assigns nothing
+//@ func (*sh).MemoryWrite
+//@   requires wfZero(ctx, op.forward)
+//@   ensures len(result) == 2
+//@   ensures result[0] == old(registerRead(ctx, op.forward, op.rd, sequenceID)) + op.offset + 0
+//@   ensures result[1] == old(registerRead(ctx, op.forward, op.rd, sequenceID)) + op.offset + 1
+//@   assigns nothing
+
+//@ -- sll
+//@ func (*sll).Run
+//@   requires wfZero(ctx, op.forward)
+//@   ensures result1 == nil
+//@   ensures result1 == nil ==> result.RegisterChange && !result.MemoryChange && !result.Return && !result.PcChange
+//@   ensures result1 == nil ==> result.Register == op.rd
+//@   ensures result1 == nil ==> result.RegisterValue == (op.rd == Zero ? 0 : (old(registerRead(ctx, op.forward, op.rs1, sequenceID))) << (uint32((old(registerRead(ctx, op.forward, op.rs2, sequenceID)))) & 31))
+//@   assigns nothing
+//@ func (*sll).ReadRegisters
+//@   ensures len(result) == 2 && ((result[0] == op.rs1 && result[1] == op.rs2) || (result[0] == op.rs2 && result[1] == op.rs1))
+//@   assigns nothing
+//@ func (*sll).WriteRegisters
+//@   ensures len(result) == 1 && result[0] == op.rd
+//@   assigns nothing
+//@ func (*sll).InstructionType
+//@   ensures result == Sll
+//@   assigns nothing
+//@ func (*sll).Forward
+//@   ensures op.forward == forward
+//@   assigns op.forward
+//@ func (*sll).MemoryRead
+//@   ensures len(result) == 0
+//@   assigns nothing
+//@ func (*sll).MemoryWrite
+//@   ensures len(result) == 0
+//@   assigns nothing
+
+//@ -- slli
+//@ func (*slli).Run
+//@   requires wfZero(ctx, op.forward)
+//@   ensures result1 == nil
+//@   ensures result1 == nil ==> result.RegisterChange && !result.MemoryChange && !result.Return && !result.PcChange
+//@   ensures result1 == nil ==> result.Register == op.rd
+//@   ensures result1 == nil ==> result.RegisterValue == (op.rd == Zero ? 0 : (old(registerRead(ctx, op.forward, op.rs, sequenceID))) << (uint32(op.imm) & 31))
+//@   assigns nothing
+//@ func (*slli).ReadRegisters
+//@   ensures len(result) == 1 && result[0] == op.rs
+//@   assigns nothing
+//@ func (*slli).WriteRegisters
+//@   ensures len(result) == 1 && result[0] == op.rd
+//@   assigns nothing
+//@ func (*slli).InstructionType
+//@   ensures result == Slli
+//@   assigns nothing
+//@ func (*slli).Forward
+//@   ensures op.forward == forward
+//@   assigns op.forward
+//@ func (*slli).MemoryRead
+//@   ensures len(result) == 0
+//@   assigns nothing
+//@ func (*slli).MemoryWrite
+//@   ensures len(result) == 0
+//@   assigns nothing
+
+//@ -- slt
+//@ func (*slt).Run
+//@   requires wfZero(ctx, op.forward)
+//@   ensures result1 == nil
+//@   ensures result1 == nil ==> result.RegisterChange && !result.MemoryChange && !result.Return && !result.PcChange
+//@   ensures result1 == nil ==> result.Register == op.rd
+//@   ensures result1 == nil ==> result.RegisterValue == (op.rd == Zero ? 0 : ((old(registerRead(ctx, op.forward, op.rs1, sequenceID))) < (old(registerRead(ctx, op.forward, op.rs2, sequenceID))) ? int32(1) : int32(0)))
+//@   assigns nothing
+//@ func (*slt).ReadRegisters
+//@   ensures len(result) == 2 && ((result[0] == op.rs1 && result[1] == op.rs2) || (result[0] == op.rs2 && result[1] == op.rs1))
+//@   assigns nothing
+//@ func (*slt).WriteRegisters
+//@   ensures len(result) == 1 && result[0] == op.rd
+//@   assigns nothing
+//@ func (*slt).InstructionType
+//@   ensures result == Slt
+//@   assigns nothing
+//@ func (*slt).Forward
+//@   ensures op.forward == forward
+//@   assigns op.forward
+//@ func (*slt).MemoryRead
+//@   ensures len(result) == 0
+//@   assigns nothing
+//@ func (*slt).MemoryWrite
+//@   ensures len(result) == 0
+//@   assigns nothing
+
+//@ -- slti
+//@ func (*slti).Run
+//@   requires wfZero(ctx, op.forward)
+//@   ensures result1 == nil
+//@   ensures result1 == nil ==> result.RegisterChange && !result.MemoryChange && !result.Return && !result.PcChange
+//@   ensures result1 == nil ==> result.Register == op.rd
+//@   ensures result1 == nil ==> result.RegisterValue == (op.rd == Zero ? 0 : ((old(registerRead(ctx, op.forward, op.rs, sequenceID))) < op.imm ? int32(1) : int32(0)))
+//@   assigns nothing
+//@ func (*slti).ReadRegisters
+//@   ensures len(result) == 1 && result[0] == op.rs
+//@   assigns nothing
+//@ func (*slti).WriteRegisters
+//@   ensures len(result) == 1 && result[0] == op.rd
+//@   assigns nothing
+//@ func (*slti).InstructionType
+//@   ensures result == Slti
+//@   assigns nothing
+//@ func (*slti).Forward
+//@   ensures op.forward == forward
+//@   assigns op.forward
+//@ func (*slti).MemoryRead
+//@   ensures len(result) == 0
+//@   assigns nothing
+//@ func (*slti).MemoryWrite
+//@   ensures len(result) == 0
+//@   assigns nothing
+
+//@ -- sltu
+//@ func (*sltu).Run
+//@   requires wfZero(ctx, op.forward)
+//@   ensures result1 == nil
+//@   ensures result1 == nil ==> result.RegisterChange && !result.MemoryChange && !result.Return && !result.PcChange
+//@   ensures result1 == nil ==> result.Register == op.rd
+//@   ensures result1 == nil ==> result.RegisterValue == (op.rd == Zero ? 0 : (uint32((old(registerRead(ctx, op.forward, op.rs1, sequenceID)))) < uint32((old(registerRead(ctx, op.forward, op.rs2, sequenceID)))) ? int32(1) : int32(0)))
+//@   assigns nothing
+//@ func (*sltu).ReadRegisters
+//@   ensures len(result) == 2 && ((result[0] == op.rs1 && result[1] == op.rs2) || (result[0] == op.rs2 && result[1] == op.rs1))
+//@   assigns nothing
+//@ func (*sltu).WriteRegisters
+//@   ensures len(result) == 1 && result[0] == op.rd
+//@   assigns nothing
+//@ func (*sltu).InstructionType
+//@   ensures result == Sltu
+//@   assigns nothing
+//@ func (*sltu).Forward
+//@   ensures op.forward == forward
+//@   assigns op.forward
+//@ func (*sltu).MemoryRead
+//@   ensures len(result) == 0
+//@   assigns nothing
+//@ func (*sltu).MemoryWrite
+//@   ensures len(result) == 0
+//@   assigns nothing
+
+//@ -- sra
+//@ func (*sra).Run
+//@   requires wfZero(ctx, op.forward)
+//@   ensures result1 == nil
+//@   ensures result1 == nil ==> result.RegisterChange && !result.MemoryChange && !result.Return && !result.PcChange
+//@   ensures result1 == nil ==> result.Register == op.rd
+//@   ensures result1 == nil ==> result.RegisterValue == (op.rd == Zero ? 0 : (old(registerRead(ctx, op.forward, op.rs1, sequenceID))) >> (uint32((old(registerRead(ctx, op.forward, op.rs2, sequenceID)))) & 31))
+//@   assigns nothing
+//@ func (*sra).ReadRegisters
+//@   ensures len(result) == 2 && ((result[0] == op.rs1 && result[1] == op.rs2) || (result[0] == op.rs2 && result[1] == op.rs1))
+//@   assigns nothing
+//@ func (*sra).WriteRegisters
+//@   ensures len(result) == 1 && result[0] == op.rd
+//@   assigns nothing
+//@ func (*sra).InstructionType
+//@   ensures result == Sra
+//@   assigns nothing
+//@ func (*sra).Forward
+//@   ensures op.forward == forward
+//@   assigns op.forward
+//@ func (*sra).MemoryRead
+//@   ensures len(result) == 0
+//@   assigns nothing
+//@ func (*sra).MemoryWrite
+//@   ensures len(result) == 0
+//@   assigns nothing
+
+//@ -- srai
+//@ func (*srai).Run
+//@   requires wfZero(ctx, op.forward)
+//@   ensures result1 == nil
+//@   ensures result1 == nil ==> result.RegisterChange && !result.MemoryChange && !result.Return && !result.PcChange
+//@   ensures result1 == nil ==> result.Register == op.rd
+//@   ensures result1 == nil ==> result.RegisterValue == (op.rd == Zero ? 0 : (old(registerRead(ctx, op.forward, op.rs, sequenceID))) >> (uint32(op.imm) & 31))
+//@   assigns nothing
+//@ func (*srai).ReadRegisters
+//@   ensures len(result) == 1 && result[0] == op.rs
+//@   assigns nothing
+//@ func (*srai).WriteRegisters
+//@   ensures len(result) == 1 && result[0] == op.rd
+//@   assigns nothing
+//@ func (*srai).InstructionType
+//@   ensures result == Srai
+//@   assigns nothing
+//@ func (*srai).Forward
+//@   ensures op.forward == forward
+//@   assigns op.forward
+//@ func (*srai).MemoryRead
+//@   ensures len(result) == 0
+//@   assigns nothing
+//@ func (*srai).MemoryWrite
+//@   ensures len(result) == 0
+//@   assigns nothing
+
+//@ -- srl
+//@ func (*srl).Run
+//@   requires wfZero(ctx, op.forward)
+//@   ensures result1 == nil
+//@   ensures result1 == nil ==> result.RegisterChange && !result.MemoryChange && !result.Return && !result.PcChange
+//@   ensures result1 == nil ==> result.Register == op.rd
+//@   ensures result1 == nil ==> result.RegisterValue == (op.rd == Zero ? 0 : int32(uint32((old(registerRead(ctx, op.forward, op.rs1, sequenceID)))) >> (uint32((old(registerRead(ctx, op.forward, op.rs2, sequenceID)))) & 31)))
+//@   assigns nothing
+//@ func (*srl).ReadRegisters
+//@   ensures len(result) == 2 && ((result[0] == op.rs1 && result[1] == op.rs2) || (result[0] == op.rs2 && result[1] == op.rs1))
+//@   assigns nothing
+//@ func (*srl).WriteRegisters
+//@   ensures len(result) == 1 && result[0] == op.rd
+//@   assigns nothing
+//@ func (*srl).InstructionType
+//@   ensures result == Srl
+//@   assigns nothing
+//@ func (*srl).Forward
+//@   ensures op.forward == forward
+//@   assigns op.forward
+//@ func (*srl).MemoryRead
+//@   ensures len(result) == 0
+//@   assigns nothing
+//@ func (*srl).MemoryWrite
+//@   ensures len(result) == 0
+//@   assigns nothing
+
+//@ -- srli
+//@ func (*srli).Run
+//@   requires wfZero(ctx, op.forward)
+//@   ensures result1 == nil
+//@   ensures result1 == nil ==> result.RegisterChange && !result.MemoryChange && !result.Return && !result.PcChange
+//@   ensures result1 == nil ==> result.Register == op.rd
+//@   ensures result1 == nil ==> result.RegisterValue == (op.rd == Zero ? 0 : int32(uint32((old(registerRead(ctx, op.forward, op.rs, sequenceID)))) >> (uint32(op.imm) & 31)))
+//@   assigns nothing
+//@ func (*srli).ReadRegisters
+//@   ensures len(result) == 1 && result[0] == op.rs
+//@   assigns nothing
+//@ func (*srli).WriteRegisters
+//@   ensures len(result) == 1 && result[0] == op.rd
+//@   assigns nothing
+//@ func (*srli).InstructionType
+//@   ensures result == Srli
+//@   assigns nothing
+//@ func (*srli).Forward
+//@   ensures op.forward == forward
+//@   assigns op.forward
+//@ func (*srli).MemoryRead
+//@   ensures len(result) == 0
+//@   assigns nothing
+//@ func (*srli).MemoryWrite
+//@   ensures len(result) == 0
+//@   assigns nothing
+
+//@ -- sub
+//@ func (*sub).Run
+//@   requires wfZero(ctx, op.forward)
+//@   ensures result1 == nil
+//@   ensures result1 == nil ==> result.RegisterChange && !result.MemoryChange && !result.Return && !result.PcChange
+//@   ensures result1 == nil ==> result.Register == op.rd
+//@   ensures result1 == nil ==> result.RegisterValue == (op.rd == Zero ? 0 : (old(registerRead(ctx, op.forward, op.rs1, sequenceID))) - (old(registerRead(ctx, op.forward, op.rs2, sequenceID))))
+//@   assigns nothing
+//@ func (*sub).ReadRegisters
+//@   ensures len(result) == 2 && ((result[0] == op.rs1 && result[1] == op.rs2) || (result[0] == op.rs2 && result[1] == op.rs1))
+//@   assigns nothing
+//@ func (*sub).WriteRegisters
+//@   ensures len(result) == 1 && result[0] == op.rd
+//@   assigns nothing
+//@ func (*sub).InstructionType
+//@   ensures result == Sub
+//@   assigns nothing
+//@ func (*sub).Forward
+//@   ensures op.forward == forward
+//@   assigns op.forward
+//@ func (*sub).MemoryRead
+//@   ensures len(result) == 0
+//@   assigns nothing
+//@ func (*sub).MemoryWrite
+//@   ensures len(result) == 0
+//@   assigns nothing
+
+//@ -- sw
+//@ func (*sw).Run
+//@   requires wfZero(ctx, op.forward)
+//@   ensures result1 == nil
+//@   ensures result.MemoryChange && !result.RegisterChange && !result.PcChange && !result.Return
+//@   ensures len(result.MemoryChanges) == 4
+//@   ensures dom(result.MemoryChanges) == {old(registerRead(ctx, op.forward, op.rd, sequenceID)) + op.offset + 0, old(registerRead(ctx, op.forward, op.rd, sequenceID)) + op.offset + 1, old(registerRead(ctx, op.forward, op.rd, sequenceID)) + op.offset + 2, old(registerRead(ctx, op.forward, op.rd, sequenceID)) + op.offset + 3}
+//@   ensures result.MemoryChanges[old(registerRead(ctx, op.forward, op.rd, sequenceID)) + op.offset + 0] == int8(uint32(old(registerRead(ctx, op.forward, op.rs, sequenceID))) >> 0)
+//@   ensures result.MemoryChanges[old(registerRead(ctx, op.forward, op.rd, sequenceID)) + op.offset + 1] == int8(uint32(old(registerRead(ctx, op.forward, op.rs, sequenceID))) >> 8)
+//@   ensures result.MemoryChanges[old(registerRead(ctx, op.forward, op.rd, sequenceID)) + op.offset + 2] == int8(uint32(old(registerRead(ctx, op.forward, op.rs, sequenceID))) >> 16)
+//@   ensures result.MemoryChanges[old(registerRead(ctx, op.forward, op.rd, sequenceID)) + op.offset + 3] == int8(uint32(old(registerRead(ctx, op.forward, op.rs, sequenceID))) >> 24)
+//@   assigns nothing
+//@ func (*sw).ReadRegisters
+//@   ensures len(result) == 2 && ((result[0] == op.rd && result[1] == op.rs) || (result[0] == op.rs && result[1] == op.rd))
+//@   assigns nothing
+//@ func (*sw).WriteRegisters
+//@   ensures len(result) == 0
+//@   assigns nothing
+//@ func (*sw).InstructionType
+//@   ensures result == Sw
+//@   assigns nothing
+//@ func (*sw).Forward
+//@   ensures op.forward == forward
+//@   assigns op.forward
+//@ func (*sw).MemoryRead
+//@   ensures len(result) == 0
+//@   assigns nothing
+//@ func (*sw).MemoryWrite
+//@   requires wfZero(ctx, op.forward)
+//@   ensures len(result) == 4
+//@   ensures result[0] == old(registerRead(ctx, op.forward, op.rd, sequenceID)) + op.offset + 0
+//@   ensures result[1] == old(registerRead(ctx, op.forward, op.rd, sequenceID)) + op.offset + 1
+//@   ensures result[2] == old(registerRead(ctx, op.forward, op.rd, sequenceID)) + op.offset + 2
+//@   ensures result[3] == old(registerRead(ctx, op.forward, op.rd, sequenceID)) + op.offset + 3
+//@   assigns nothing
+
+//@ -- xor
+//@ func (*xor).Run
+//@   requires wfZero(ctx, op.forward)
+//@   ensures result1 == nil
+//@   ensures result1 == nil ==> result.RegisterChange && !result.MemoryChange && !result.Return && !result.PcChange
+//@   ensures result1 == nil ==> result.Register == op.rd
+//@   ensures result1 == nil ==> result.RegisterValue == (op.rd == Zero ? 0 : (old(registerRead(ctx, op.forward, op.rs1, sequenceID))) ^ (old(registerRead(ctx, op.forward, op.rs2, sequenceID))))
+//@   assigns nothing
+//@ func (*xor).ReadRegisters
+//@   ensures len(result) == 2 && ((result[0] == op.rs1 && result[1] == op.rs2) || (result[0] == op.rs2 && result[1] == op.rs1))
+//@   assigns nothing
+//@ func (*xor).WriteRegisters
+//@   ensures len(result) == 1 && result[0] == op.rd
+//@   assigns nothing
+//@ func (*xor).InstructionType
+//@   ensures result == Xor
+//@   assigns nothing
+//@ func (*xor).Forward
+//@   ensures op.forward == forward
+//@   assigns op.forward
+//@ func (*xor).MemoryRead
+//@   ensures len(result) == 0
+//@   assigns nothing
+//@ func (*xor).MemoryWrite
+//@   ensures len(result) == 0
+//@   assigns nothing
+
+//@ -- xori
+//@ func (*xori).Run
+//@   requires wfZero(ctx, op.forward)
+//@   ensures result1 == nil
+//@   ensures result1 == nil ==> result.RegisterChange && !result.MemoryChange && !result.Return && !result.PcChange
+//@   ensures result1 == nil ==> result.Register == op.rd
+//@   ensures result1 == nil ==> result.RegisterValue == (op.rd == Zero ? 0 : (old(registerRead(ctx, op.forward, op.rs, sequenceID))) ^ op.imm)
+//@   assigns nothing
+//@ func (*xori).ReadRegisters
+//@   ensures len(result) == 1 && result[0] == op.rs
+//@   assigns nothing
+//@ func (*xori).WriteRegisters
+//@   ensures len(result) == 1 && result[0] == op.rd
+//@   assigns nothing
+//@ func (*xori).InstructionType
+//@   ensures result == Xori
+//@   assigns nothing
+//@ func (*xori).Forward
+//@   ensures op.forward == forward
+//@   assigns op.forward
+//@ func (*xori).MemoryRead
+//@   ensures len(result) == 0
+//@   assigns nothing
+//@ func (*xori).MemoryWrite
+//@   ensures len(result) == 0
+//@   assigns nothing
+
